@@ -52,7 +52,7 @@ theorem loop_line_ge (P : BState → Nat → Prop) (hP : FrameClosed P) (rules :
                     have : s.lines[line1]? = some l := hl
                     rw [this] at hl'; exact (Option.some.inj hl').symm
                   subst hll
-                  exact ⟨hlen, by omega, hend, ⟨l', hl, hne', by simpa using hnout⟩, hP s _ _ ⟨rfl, rfl, rfl, rfl⟩ hPs⟩
+                  exact ⟨hlen, by omega, hend, ⟨l', hl, hne', by simpa using hnout⟩, rfl, hP s _ _ ⟨⟨rfl, rfl⟩, rfl, rfl, rfl⟩ hPs⟩
                 obtain ⟨m', s2', hc', hfr2, hprog, hmiss⟩ := C01.chain_ok P hP rules hok { s with line := line1 } line1 endLine hctx
                 rw [hc] at hc'
                 simp only [Except.ok.injEq, Prod.mk.injEq] at hc'
@@ -60,13 +60,13 @@ theorem loop_line_ge (P : BState → Nat → Prop) (hP : FrameClosed P) (rules :
                 split at h
                 · cases h
                 · rename_i hnle
-                  have hlen2 : s2.lineMax + 1 ≤ s2.lines.length := by rw [hfr2.1, hfr2.2.1]; exact hlen
+                  have hlen2 : s2.lineMax + 1 ≤ s2.lines.length := by rw [hfr2.1.1, hfr2.2.1]; exact hlen
                   have hend2 : endLine ≤ s2.lineMax := by rw [hfr2.2.1]; exact hend
                   have fin : ∀ (l' : Nat) (he : Bool) (st : BState), st.lineMax + 1 ≤ st.lines.length → endLine ≤ st.lineMax →
                       s2.FrameEq st → st.line = l' → s2.line ≤ l' →
                       blockLoop rules maxNesting endLine n l' he st = .ok s' → line ≤ s'.line := by
                     intro l' he st hl hE hfe hstl hle hrec
-                    have hPst : P st endLine := hP _ _ _ hfe (hP _ _ _ hfr2 (hP s _ _ ⟨rfl, rfl, rfl, rfl⟩ hPs))
+                    have hPst : P st endLine := hP _ _ _ hfe (hP _ _ _ hfr2 (hP s _ _ ⟨⟨rfl, rfl⟩, rfl, rfl, rfl⟩ hPs))
                     have := ih l' he st s' hl hE hPst hrec
                     by_cases hlt2 : l' < endLine
                     · have := this.1 hlt2; have := hsk.1; omega
@@ -77,9 +77,9 @@ theorem loop_line_ge (P : BState → Nat → Prop) (hP : FrameClosed P) (rules :
                     · split at h
                       · cases h
                       · split at h
-                        · exact fin (s2.line + 1) _ { s2 with tight := !hasEmpty, line := s2.line + 1 } hlen2 hend2 ⟨rfl, rfl, rfl, rfl⟩ rfl (by omega) h
-                        · exact fin s2.line _ { s2 with tight := !hasEmpty } hlen2 hend2 ⟨rfl, rfl, rfl, rfl⟩ rfl (Nat.le_refl _) h
-                    · exact fin s2.line _ { s2 with tight := !hasEmpty } hlen2 hend2 ⟨rfl, rfl, rfl, rfl⟩ rfl (Nat.le_refl _) h
+                        · exact fin (s2.line + 1) _ { s2 with tight := !hasEmpty, line := s2.line + 1 } hlen2 hend2 ⟨⟨rfl, rfl⟩, rfl, rfl, rfl⟩ rfl (by omega) h
+                        · exact fin s2.line _ { s2 with tight := !hasEmpty } hlen2 hend2 ⟨⟨rfl, rfl⟩, rfl, rfl, rfl⟩ rfl (Nat.le_refl _) h
+                    · exact fin s2.line _ { s2 with tight := !hasEmpty } hlen2 hend2 ⟨⟨rfl, rfl⟩, rfl, rfl, rfl⟩ rfl (Nat.le_refl _) h
     · rename_i hn; simp only [Except.ok.injEq] at h; subst h; exact ⟨fun hl => absurd hl hn, fun _ => rfl⟩
 
 /-- **C03.loop_maps_final** — the stages end no later than the line the loop finally stands on -/
@@ -122,7 +122,7 @@ theorem loop_maps_final (P : BState → Nat → Prop) (hP : FrameClosed P) (rule
                     have : s.lines[line1]? = some l := hl
                     rw [this] at hl'; exact (Option.some.inj hl').symm
                   subst hll
-                  exact ⟨hlen, by omega, hend, ⟨l', hl, hne', by simpa using hnout⟩, hP s _ _ ⟨rfl, rfl, rfl, rfl⟩ hPs⟩
+                  exact ⟨hlen, by omega, hend, ⟨l', hl, hne', by simpa using hnout⟩, rfl, hP s _ _ ⟨⟨rfl, rfl⟩, rfl, rfl, rfl⟩ hPs⟩
                 obtain ⟨m', s2', hc', hfr2, hprog, hmiss⟩ := C01.chain_ok P hP rules hok { s with line := line1 } line1 endLine hctx
                 rw [hc] at hc'
                 simp only [Except.ok.injEq, Prod.mk.injEq] at hc'
@@ -136,7 +136,7 @@ theorem loop_maps_final (P : BState → Nat → Prop) (hP : FrameClosed P) (rule
                     cases mm with
                     | true => rfl
                     | false => have := hmiss rfl; simp at this; omega
-                  have hlen2 : s2.lineMax + 1 ≤ s2.lines.length := by rw [hfr2.1, hfr2.2.1]; exact hlen
+                  have hlen2 : s2.lineMax + 1 ≤ s2.lines.length := by rw [hfr2.1.1, hfr2.2.1]; exact hlen
                   have hend2 : endLine ≤ s2.lineMax := by rw [hfr2.2.1]; exact hend
                   have hstage := hmaps hm
                   have fin : ∀ (l' : Nat) (he : Bool) (st : BState), st.tokens = s2.tokens → st.lineMax + 1 ≤ st.lines.length →
@@ -144,7 +144,7 @@ theorem loop_maps_final (P : BState → Nat → Prop) (hP : FrameClosed P) (rule
                       blockLoop rules maxNesting endLine n l' he st = .ok s' →
                       ∃ new, s'.tokens = s.tokens ++ new ∧ Staged line s'.line new := by
                     intro l' he st htok hl hE hfe hstl hle hrec
-                    have hPst : P st endLine := hP _ _ _ hfe (hP _ _ _ hfr2 (hP s _ _ ⟨rfl, rfl, rfl, rfl⟩ hPs))
+                    have hPst : P st endLine := hP _ _ _ hfe (hP _ _ _ hfr2 (hP s _ _ ⟨⟨rfl, rfl⟩, rfl, rfl, rfl⟩ hPs))
                     obtain ⟨new', hn1, hn2⟩ := ih l' he st s' hl hE hPst hrec
                     have hge := loop_line_ge P hP rules hok maxNesting endLine n l' he st s' hl hE hPst hrec
                     have hfinal : l' ≤ s'.line := by
@@ -160,9 +160,9 @@ theorem loop_maps_final (P : BState → Nat → Prop) (hP : FrameClosed P) (rule
                     · split at h
                       · cases h
                       · split at h
-                        · exact fin (s2.line + 1) _ { s2 with tight := !hasEmpty, line := s2.line + 1 } rfl hlen2 hend2 ⟨rfl, rfl, rfl, rfl⟩ rfl (by omega) h
-                        · exact fin s2.line _ { s2 with tight := !hasEmpty } rfl hlen2 hend2 ⟨rfl, rfl, rfl, rfl⟩ rfl (Nat.le_refl _) h
-                    · exact fin s2.line _ { s2 with tight := !hasEmpty } rfl hlen2 hend2 ⟨rfl, rfl, rfl, rfl⟩ rfl (Nat.le_refl _) h
+                        · exact fin (s2.line + 1) _ { s2 with tight := !hasEmpty, line := s2.line + 1 } rfl hlen2 hend2 ⟨⟨rfl, rfl⟩, rfl, rfl, rfl⟩ rfl (by omega) h
+                        · exact fin s2.line _ { s2 with tight := !hasEmpty } rfl hlen2 hend2 ⟨⟨rfl, rfl⟩, rfl, rfl, rfl⟩ rfl (Nat.le_refl _) h
+                    · exact fin s2.line _ { s2 with tight := !hasEmpty } rfl hlen2 hend2 ⟨⟨rfl, rfl⟩, rfl, rfl, rfl⟩ rfl (Nat.le_refl _) h
     · simp only [Except.ok.injEq] at h; subst h; exact ⟨[], by simp, .nil _ _⟩
 
 @[simp] theorem setMap_map (t : Tok) (m) : (t.setMap m).map = m := by cases t; rfl
